@@ -52,6 +52,7 @@ def run(ctx):
                 trig = T.hoist(cs[-1]) if cs else None
                 ok = trig is not None and any(trig == T.hoist(a) or T.assume(trig, set(cs[:-1])) == T.assume(a, set(cs[:-1]))
                                               for a in allowed)
+                ok = ok or depth_overflow(cs, node)
                 ob.require(ok, 'PubKeyNode.ckd refuses (%s) under a condition that BIP32 does not declare invalid' % leaf[1],
                            fi.where, expected='only IL >= n or K_i == infinity',
                            found=T.show(cs[-1], maxdepth=5) if cs else 'unconditional')
